@@ -31,13 +31,46 @@ def by_variant(ctx, f, base="a1"):
     return out
 
 
+def peeled_param(ctx, f):
+    """`while let Expr::Group(g) = *expr { expr = &g.expr; }` in front of the match: the local the
+    match runs on is the parameter with every invisible-group layer taken off – the same function
+    as the recursive `Expr::Group(g) => Self::from_expr(&g.expr)` arm.  Returns the local's name
+    (`_N`) when exactly that loop is found: two definitions, the parameter and the inner expression
+    of its own Group payload, the second one only under `is Group`."""
+    s, _ = ctx.sym(f)
+    for l, ds in f.defs().items():
+        ds = [d for d in ds if not f.is_cleanup(d[0]) and d[2] in ("assign", "call")]
+        if l <= f.arg_count or len(ds) != 2:
+            continue
+        es = [ctx.expr(f, d[3]["r"]) if d[2] == "assign" else "call" for d in ds]
+        name = "_%d" % l
+        init = [i for i, e in enumerate(es) if e == "a1"]
+        step = [i for i, e in enumerate(es) if re.match(r"^\(%s as Group\)\.0\.expr(\.0\.pointer)?$" % name, e)]
+        if len(init) == 1 and len(step) == 1:
+            pcs = ctx.pc_strs(f, ds[step[0]][0])
+            if pcs and all("discr(%s)=Group" % name in d for d in pcs):
+                return name
+    return None
+
+
+def dispatcher_cases(ctx, f):
+    """case table of a dispatcher; a parameter peeled of its Group layers by a loop reads as the
+    parameter (second value: whether that was done)"""
+    cs = resalg.cases(ctx, f)
+    p = peeled_param(ctx, f)
+    if not p:
+        return cs, False
+    rx = re.compile(r"\b%s\b" % re.escape(p))
+    return [(sorted(rx.sub("a1", a) for a in c), rx.sub("a1", v)) for c, v in cs], True
+
+
 def inner_by_variant(ctx, f, base="a1"):
     """Routing table of a dispatcher, read off its case table (vlib.resalg): per variant of the
     argument, the calls whose outcome decides the result (`is_ok(call)` conditions), or the value
     itself when the arm does not call anything.  The layout of the match (bound to a local or not,
     `?` or explicit arms) does not matter."""
     out = {}
-    for conds, v in resalg.cases(ctx, f):
+    for conds, v in dispatcher_cases(ctx, f)[0]:
         ks = [a for a in conds if a.startswith("discr(%s)=" % base)]
         k = ks[0] if ks else ""
         srcs = []
@@ -93,6 +126,10 @@ def default_expr_routing_rules(ctx, P):
         ok_lit = v.get("discr(a1)=Lit") == ["%sfrom_value((a1 as Lit).0.lit)" % T]
         grp = v.get("discr(a1)=Group") or []
         ok_grp = len(grp) == 1 and grp[0].startswith("%sfrom_expr((a1 as Group).0.expr" % T)
+        if not grp and peeled_param(ctx, f):
+            # the groups are taken off by a loop in front of the match (no Group case is left)
+            ok_grp = True
+            grp = ["peeled by a loop before the match"]
         ctx.ob(P + ".E.expr-routing-literal", f.key, "Lit → from_value(&lit.lit)", ok_lit, "%s" % v.get("discr(a1)=Lit"))
         ctx.ob(P + ".E.expr-routing-group-transparent", f.key, "Group → from_expr(&group.expr)", ok_grp, "%s" % grp)
         # closed: whatever is neither a literal nor an invisible group is an error
@@ -114,7 +151,9 @@ def run(ctx):
         erv = [v for c, v in cs if "is_ok(%s)=False" % P in c]
         ctx.ob("C15.F.list-is-parse-terminated", f.key, "Punctuated::<NestedMeta, Comma>::parse_terminated.parse2(tokens)", len(cs) == 2 and len(okv) == 1 and erv in (["core::result::Result::Err{(%s as Err).0}" % P], ["core::result::Result::Err{From::from((%s as Err).0)}" % P]), "%s" % [(c, v[:200]) for c, v in cs])
         want = "core::result::Result::Ok{core::iter::traits::iterator::Iterator::collect(<syn::punctuated::Punctuated<T, P> as core::iter::traits::collect::IntoIterator>::into_iter((%s as Ok).0))}" % P
-        ok_order = okv == [want]
+        # (`Vec::from_iter(x)` is `x.into_iter().collect::<Vec<_>>()`)
+        SEQ = "core::result::Result::Ok{<alloc::vec::Vec<T> as core::iter::traits::collect::FromIterator<T>>::from_iter((%s as Ok).0)}" % P
+        ok_order = okv == [want] or okv == [SEQ]
         if not ok_order and len(okv) == 1:
             # the same list built by a loop that pushes every item of the parsed sequence, in order
             hits = [h for h in ctx.per_element(f, r"^alloc::vec::Vec::<T, A>::push$") if h["form"] == "loop" and h["owner"] is f]
@@ -144,10 +183,11 @@ def run(ctx):
         f = ctx.fn(T + h)
         if not f:
             continue
-        failing = [(c, v) for c, v in resalg.cases(ctx, f) if v.startswith("core::result::Result::Err{")]
+        failing = [(c, v) for c, v in dispatcher_cases(ctx, f)[0] if v.startswith("core::result::Result::Err{")]
         ctx.ob("C15.G.hook-errors-get-item-span", f.key, "failing cases exist", len(failing) >= 2, "%d failing cases" % len(failing))
         for c, v in failing:
-            spanned = re.match(r"^core::result::Result::Err\{darling_core::error::Error::with_span\(.*, a1\)\}$", v) is not None
+            spanned = re.match(r"^core::result::Result::Err\{darling_core::error::Error::with_span\(.*, a1\)\}$", v) is not None \
+                or re.match(r"^core::result::Result::Err\{darling_core::error::Error::unexpected_(lit|expr)_type\(a1\)\}$", v) is not None   # these span themselves with the item (C03.G.spanning-constructors)
             syn_err = re.match(r"^core::result::Result::Err\{From::from\(\(darling_core::ast::data::NestedMeta::parse_meta_list\(.*\) as Err\)\.0\)\}$", v) is not None
             ctx.ob("C15.G.hook-errors-get-item-span", f.key, "failing case under %s" % [a[:60] for a in c if a.startswith("discr(")], spanned or syn_err,
                    "an error leaves the default %s without .with_span(item): %s" % (h, v[:200]))
@@ -171,7 +211,8 @@ def run(ctx):
         ctx.ob("C15.E.meta-routing-exhaustive", f.key, "three forms", set(v) >= {"discr(a1)=Path", "discr(a1)=NameValue", "discr(a1)=List"}, "%s" % sorted(v))
         # an unparsable list is an error that keeps syn's span (from_residual of syn::Error → Error::from)
         bad = [v2 for c2, v2 in resalg.cases(ctx, f) if any(re.match(r"^is_ok\(darling_core::ast::data::NestedMeta::parse_meta_list\(.*\)\)=False$", a) for a in c2)]
-        ok = len(bad) == 1 and re.match(r"^core::result::Result::Err\{From::from\(\(darling_core::ast::data::NestedMeta::parse_meta_list\(.*\) as Err\)\.0\)\}$", bad[0]) is not None
+        # (a `.with_span(item)` around it changes nothing: the converted syn error already carries its own span – C03.G)
+        ok = len(bad) == 1 and re.match(r"^core::result::Result::Err\{(darling_core::error::Error::with_span\()?From::from\(\(darling_core::ast::data::NestedMeta::parse_meta_list\(.*\) as Err\)\.0\)(, a1\))?\}$", bad[0]) is not None
         ctx.ob("C15.G.bad-list-is-error", f.key, "parse_meta_list(..) fails => Err(Error::from(syn error))", ok, "%s" % [x[:200] for x in bad])
         check_dispatcher(ctx, f)
     default_expr_routing_rules(ctx, "C15")
